@@ -34,13 +34,22 @@ Definition remote_ok (ops : list op) : Prop :=
   forall ty d, In (SetRemote ty d) ops -> rdesc_ok d.
 
 (* CreateOffer's numbering loop leaves the transceivers with pairwise distinct
-   mids.  Excludes: an unset transceiver numbered before a later transceiver
-   with that mid has been seen (CreateOffer while a remote offer is pending),
-   and greaterMid++ wrapping around. *)
+   mids.  (Before the repair of CreateOffer this was a guard; it now follows
+   from the invariant and offer_nowrap: Proofs/JsepMidGen.v numbering_ok_lemma.) *)
 Definition numbering_ok (s : st) : Prop := NoDup (set_mids (trs (offer_alloc s))).
+
+(* no greaterMid++ of the numbering loop leaves the range of a Go int *)
+Fixpoint alloc_nowrap (g : Z) (l : list tr) : bool :=
+  match l with
+  | [] => true
+  | t :: rest =>
+      if mid_unset t then in_int (g + 1) && alloc_nowrap (g + 1) rest
+      else alloc_nowrap g rest
+  end.
+Definition offer_nowrap (s : st) : bool := alloc_nowrap (offer_start s) (trs s).
 (* ... at every CreateOffer of a history *)
-Definition numbering_ok_all (ops : list op) : Prop :=
-  forall s out s', In (s, CreateOffer, out, s') (trace ops) -> numbering_ok s.
+Definition nowrap_all (ops : list op) : Prop :=
+  forall s out s', In (s, CreateOffer, out, s') (trace ops) -> offer_nowrap s = true.
 
 (* every kind still has a codec (no section is written as a bare port-0 line) *)
 Definition codecs_ok (s : st) : Prop := forall k, has_codecs s k = true.
@@ -51,7 +60,8 @@ Definition remote_secs (d : option rdesc) : list rsection :=
 (* the state just before CreateOffer generates sections *)
 Definition offer_guard (s : st) : Prop :=
   let s1 := offer_alloc s in
-  numbering_ok s /\
+  (* the counter does not overflow *)
+  offer_nowrap s = true /\
   (* no transceiver carries the mid of an application section of the remote
      description the offer is generated against *)
   (forall t r, In t (trs s1) -> In r (remote_secs (offer_remote s1)) ->
